@@ -358,6 +358,7 @@ func pruneDeleteFiles(prunableObjects []string, logger *tasklog.Logger) {
 		if mediaFile == os.DevNull {
 			continue
 		}
+		tools.VerifFs("unlink", mediaFile, "")
 		err = os.Remove(mediaFile)
 		if err != nil {
 			problems.WriteString(tr.Tr.Get("Failed to remove file %v: %v", mediaFile, err))
